@@ -73,7 +73,7 @@ OnHStart(m, ev) ==
   ELSE IF ~m.accepted THEN Fail(m, "C19:handler-invoked-before-handshake-was-accepted")
   ELSE IF m.probe \in {"qos", "oversize", "alias_over"} /\ ev.k = "pub" /\ ev.id = 77
     THEN Fail(m, "C19:packet-beyond-negotiated-limit-reached-a-handler")
-  ELSE IF m.probe = "alias_at" /\ ev.k = "pub" /\ ev.id = 77 THEN [m EXCEPT !.probeDone = TRUE]
+  ELSE IF m.probe \in {"alias_at", "oversize_ok"} /\ ev.k = "pub" /\ ev.id = 77 THEN [m EXCEPT !.probeDone = TRUE]
   ELSE m
 
 OnOut(m, ev) ==
@@ -119,6 +119,8 @@ OnFinal(m, ev) ==
     THEN Fail(m, "C19:oversize-frame-not-refused-with-0x95")
   ELSE IF m.accepted /\ m.probe = "alias_at" /\ ~m.probeDone
     THEN Fail(m, "C19:alias-within-negotiated-maximum-refused")
+  ELSE IF m.accepted /\ m.probe = "oversize_ok" /\ ~m.probeDone
+    THEN Fail(m, "C19:packet-within-the-negotiated-size-limit-refused")
   ELSE m
 
 Step(m, ev) ==
